@@ -402,9 +402,17 @@ func runC36(p *Prog, r *Result) {
 	ds, dp := derive(fs), derive(fp)
 	r.Check(ds == dp && ds != "", "R36c", "cmd/shfmt#language derivation stdin = file", fs.Pos(), "both use: "+ds,
 		fmt.Sprintf("stdin and file paths derive the language differently (stdin: %s | file: %s): the same script formats differently through a pipe", ds, dp))
+	checkPropsOptionsOnEveryPath(p, r, pkg, fb, g)
+	checkModeTable(p, r, pkg, fb, mainFD, g, eq, resObj)
 }
 
 var c36Controls = []Control{
+	{Name: "list-null-exits-zero", Rule: "R36d", WantKey: "--list=0 alone: differs status returned", File: "cmd/shfmt/main.go",
+		Mutate: ctlReplace("formatBytes", `list.val != "false" && !write.val`, `list.val == "true" && !write.val`, 0)},
+	{Name: "editorconfig-fast-path", Rule: "R36c", WantKey: "propsOptions before every Print", File: "cmd/shfmt/main.go",
+		Mutate: ctlReplace("formatBytes", "fileLang, fileLangFromEditorConfig = propsOptions(fileLang, props)", "if len(props.Properties) > 0 {\n\t\t\tfileLang, fileLangFromEditorConfig = propsOptions(fileLang, props)\n\t\t} else {\n\t\t\tsyntax.Variant(fileLang)(parser)\n\t\t}", 0)},
+	{Name: "diff-after-write-returns-nil", Rule: "R36d", WantKey: "--diff: diff computed", File: "cmd/shfmt/main.go",
+		Mutate: ctlReplace("formatBytes", "diff.val", "diff.val && !write.val", 1)},
 	{Name: "list-prints-always", Rule: "R36b", WantKey: "Println only when differs", File: "cmd/shfmt/main.go",
 		Mutate: ctlReplace("formatBytes", "!bytes.Equal(src, res)", "!bytes.Equal(src, res) || list.val == \"true\"", 0)},
 	{Name: "editorconfig-conditional-option", Rule: "R36c", WantKey: "SpaceRedirects applied unconditionally", File: "cmd/shfmt/main.go",
